@@ -9,6 +9,7 @@ import (
 	"go/constant"
 	"go/token"
 	"go/types"
+	"regexp"
 	"regexp/syntax"
 	"sort"
 	"strings"
@@ -19,19 +20,21 @@ import (
 func init() { register("E7-misc", runE7) }
 
 type E7Spec struct {
-	Units       []UnitSpec     `json:"units"`
-	Stale       []StaleSpec    `json:"stale_coordinates"`
-	Frames      []FrameSpec    `json:"frames"`
-	Anchoring   []AnchorSpec   `json:"anchoring"`
-	TokenTable  []TokenTblSpec `json:"token_tables"`
-	ConstArgs   []ConstArgSpec `json:"const_args"`
-	Aliasing    []FuncRuleSpec `json:"aliasing"`
-	DotQuoting  []FuncRuleSpec `json:"dot_quoting"`
-	Dedupe      []FuncRuleSpec `json:"dedupe_keys"`
-	DeleteIter  []FuncRuleSpec `json:"delete_while_iterating"`
-	LoopCarried []FuncRuleSpec `json:"loop_carried_record"`
-	JSON        []JSONSpec     `json:"json_closure"`
-	NoExit      []NoExitSpec   `json:"no_exit"`
+	Units         []UnitSpec         `json:"units"`
+	Stale         []StaleSpec        `json:"stale_coordinates"`
+	Frames        []FrameSpec        `json:"frames"`
+	Anchoring     []AnchorSpec       `json:"anchoring"`
+	TokenTable    []TokenTblSpec     `json:"token_tables"`
+	ConstArgs     []ConstArgSpec     `json:"const_args"`
+	Aliasing      []FuncRuleSpec     `json:"aliasing"`
+	DotQuoting    []FuncRuleSpec     `json:"dot_quoting"`
+	Dedupe        []FuncRuleSpec     `json:"dedupe_keys"`
+	DeleteIter    []FuncRuleSpec     `json:"delete_while_iterating"`
+	LoopCarried   []FuncRuleSpec     `json:"loop_carried_record"`
+	RegexpSamples []RegexpSampleSpec `json:"regexp_samples"`
+	Immutable     []ImmutableSpec    `json:"input_immutability"`
+	JSON          []JSONSpec         `json:"json_closure"`
+	NoExit        []NoExitSpec       `json:"no_exit"`
 }
 
 type FuncRuleSpec struct {
@@ -115,6 +118,12 @@ func runE7(p *Program, sp *Spec, c *Collector) {
 	}
 	for _, d := range t.LoopCarried {
 		runLoopCarried(p, c, d)
+	}
+	for _, r := range t.RegexpSamples {
+		runRegexpSamples(p, c, r)
+	}
+	for _, im := range t.Immutable {
+		runImmutable(p, c, im)
 	}
 	for _, d := range t.DeleteIter {
 		runDeleteIter(p, c, d)
@@ -1255,3 +1264,187 @@ func checkCarried(p *Program, c *Collector, d FuncRuleSpec, fn *ssa.Function, ob
 		return
 	}
 }
+
+// ---------------------------------------------------------------------------------------------
+// regexp samples: a constant pattern must accept the documented line forms (with the documented groups) and reject the
+// forms of other line classes. The pattern is read from the source; nothing of coca is executed.
+
+type RegexpSampleSpec struct {
+	Props  []string `json:"props"`
+	Regexp string   `json:"regexp"` // rel/pkg.var
+	What   string   `json:"what"`
+	Match  []struct {
+		In     string   `json:"in"`
+		Groups []string `json:"groups"` // expected submatches 1..n ("" entries are compared too); nil = only match
+	} `json:"match"`
+	NoMatch []string `json:"nomatch"`
+}
+
+func runRegexpSamples(p *Program, c *Collector, rs RegexpSampleSpec) {
+	g := p.Global(rs.Regexp)
+	if g == nil {
+		c.Anchor(rs.Props, "E7: regexp samples: %s does not resolve", rs.Regexp)
+		return
+	}
+	an := &shapeAn{p: p}
+	pat, ok := an.regexpPattern(&Sym{Op: "global", Name: rs.Regexp})
+	key := "regexp:" + rs.Regexp
+	if !ok {
+		c.Ob(rs.Props, "E7.regexp-samples", key, Undecided, rs.What+": the pattern is not an effectively final constant", p.Pos(g.Pos()), false)
+		return
+	}
+	re, err := regexpCompile(pat)
+	if err != nil {
+		c.Ob(rs.Props, "E7.regexp-samples", key, Violated, rs.What+": pattern does not compile: "+err.Error(), p.Pos(g.Pos()), false)
+		return
+	}
+	for _, m := range rs.Match {
+		sub := re.FindStringSubmatch(m.In)
+		if sub == nil {
+			c.Ob(rs.Props, "E7.regexp-samples", key, Violated, fmt.Sprintf("%s: pattern `%s` does not accept the documented form %q", rs.What, pat, m.In), p.Pos(g.Pos()), false)
+			return
+		}
+		if m.Groups != nil {
+			got := sub[1:]
+			if len(got) < len(m.Groups) {
+				c.Ob(rs.Props, "E7.regexp-samples", key, Violated, fmt.Sprintf("%s: pattern `%s` has %d groups, the extraction needs %d", rs.What, pat, len(got), len(m.Groups)), p.Pos(g.Pos()), false)
+				return
+			}
+			for i, w := range m.Groups {
+				if got[i] != w {
+					c.Ob(rs.Props, "E7.regexp-samples", key, Violated, fmt.Sprintf("%s: on %q group %d is %q, expected %q (pattern `%s`)", rs.What, m.In, i+1, got[i], w, pat), p.Pos(g.Pos()), false)
+					return
+				}
+			}
+		}
+	}
+	for _, s := range rs.NoMatch {
+		if re.MatchString(s) {
+			c.Ob(rs.Props, "E7.regexp-samples", key, Violated, fmt.Sprintf("%s: pattern `%s` accepts %q, which belongs to another class of lines", rs.What, pat, s), p.Pos(g.Pos()), false)
+			return
+		}
+	}
+	c.Ob(rs.Props, "E7.regexp-samples", key, Discharged, fmt.Sprintf("%s: pattern `%s` accepts the %d documented forms with the expected groups and rejects %d foreign forms", rs.What, pat, len(rs.Match), len(rs.NoMatch)), p.Pos(g.Pos()), true)
+}
+
+// ---------------------------------------------------------------------------------------------
+// input immutability: a summary function must not write through the slice it is given
+
+type ImmutableSpec struct {
+	Props []string `json:"props"`
+	Func  string   `json:"func"`
+	Param int      `json:"param"`
+	What  string   `json:"what"`
+}
+
+// valueFromParam: does value v (a slice, pointer, map or a struct containing them) originate from prm, possibly through
+// copies into local variables?
+func valueFromParam(v ssa.Value, prm *ssa.Parameter, seen map[ssa.Value]bool) bool {
+	if v == nil || seen[v] {
+		return false
+	}
+	seen[v] = true
+	switch x := v.(type) {
+	case *ssa.Parameter:
+		return x == prm
+	case *ssa.UnOp:
+		if x.Op == token.MUL {
+			return locationFromParam(x.X, prm, seen)
+		}
+	case *ssa.Slice:
+		return valueFromParam(x.X, prm, seen)
+	case *ssa.Phi:
+		for _, e := range x.Edges {
+			if valueFromParam(e, prm, seen) {
+				return true
+			}
+		}
+	case *ssa.Field:
+		return valueFromParam(x.X, prm, seen)
+	case *ssa.Index:
+		return valueFromParam(x.X, prm, seen)
+	case *ssa.Extract:
+		return valueFromParam(x.Tuple, prm, seen)
+	case *ssa.Next:
+		if r, ok := x.Iter.(*ssa.Range); ok {
+			return valueFromParam(r.X, prm, seen)
+		}
+	case *ssa.FieldAddr, *ssa.IndexAddr:
+		return locationFromParam(x, prm, seen)
+	}
+	return false
+}
+
+// locationFromParam: does the memory location addr hold data of prm (element / field of it, or a local copy of such)?
+func locationFromParam(addr ssa.Value, prm *ssa.Parameter, seen map[ssa.Value]bool) bool {
+	switch a := addr.(type) {
+	case *ssa.IndexAddr:
+		return valueFromParam(a.X, prm, seen) || locationFromParam(a.X, prm, seen)
+	case *ssa.FieldAddr:
+		return valueFromParam(a.X, prm, seen) || locationFromParam(a.X, prm, seen)
+	case *ssa.Alloc:
+		if refs := a.Referrers(); refs != nil {
+			for _, r := range *refs {
+				if st, ok := r.(*ssa.Store); ok && st.Addr == ssa.Value(a) && valueFromParam(st.Val, prm, seen) {
+					return true
+				}
+			}
+		}
+	case *ssa.Parameter:
+		return a == prm
+	}
+	return false
+}
+
+// sharedLocation: is addr inside memory shared with the caller's data (reached through a slice, pointer or map that
+// comes from prm), as opposed to a local copy of a struct?
+func sharedLocation(addr ssa.Value, prm *ssa.Parameter) bool {
+	switch a := addr.(type) {
+	case *ssa.IndexAddr:
+		if _, isSlice := a.X.Type().Underlying().(*types.Slice); isSlice {
+			return valueFromParam(a.X, prm, map[ssa.Value]bool{})
+		}
+		return sharedLocation(a.X, prm)
+	case *ssa.FieldAddr:
+		if _, isAlloc := a.X.(*ssa.Alloc); isAlloc {
+			return false // field of a local variable
+		}
+		if _, isAddr := a.X.(*ssa.IndexAddr); isAddr {
+			return sharedLocation(a.X, prm)
+		}
+		if _, isAddr := a.X.(*ssa.FieldAddr); isAddr {
+			return sharedLocation(a.X, prm)
+		}
+		return valueFromParam(a.X, prm, map[ssa.Value]bool{})
+	}
+	return false
+}
+
+func runImmutable(p *Program, c *Collector, im ImmutableSpec) {
+	fn := p.Func(im.Func)
+	if fn == nil || im.Param >= len(fn.Params) {
+		c.Anchor(im.Props, "E7: input immutability: %s / parameter %d does not resolve", im.Func, im.Param)
+		return
+	}
+	key := fmt.Sprintf("immutable:%s param%d", im.Func, im.Param)
+	for f := range p.reach([]*ssa.Function{fn}) {
+		if f != fn {
+			continue // only the function itself: callees receive copies or are checked on their own rows
+		}
+		for _, b := range f.Blocks {
+			for _, in := range b.Instrs {
+				st, ok := in.(*ssa.Store)
+				if !ok {
+					continue
+				}
+				if sharedLocation(st.Addr, fn.Params[im.Param]) {
+					c.Ob(im.Props, "E7.input-immutability", key, Violated, im.What+": the function writes into the elements of its input ("+fn.Params[im.Param].Name()+"), so a second summary computed from the same commit list sees modified data", p.InstrPos(in), false)
+					return
+				}
+			}
+		}
+	}
+	c.Ob(im.Props, "E7.input-immutability", key, Discharged, im.What+": no store reaches the backing array of the input", p.FuncPos(fn), true)
+}
+
+func regexpCompile(pat string) (*regexp.Regexp, error) { return regexp.Compile(pat) }
